@@ -188,8 +188,9 @@ def build_context(tabs, layout, lazy=True, knobs=None):
 # programs
 # ---------------------------------------------------------------------------------------------
 class Prog:
-    def __init__(self, name, fn, order_free=False, index_free=False, tags=(), dask_only=False, needs_known=False, needs_range=False):
+    def __init__(self, name, fn, order_free=False, index_free=False, tags=(), dask_only=False, needs_known=False, needs_range=False, undefined=False):
         self.name, self.fn = name, fn
+        self.undefined = undefined  # the program's result is not defined by dask-expr's documented semantics (skipped by value oracles)
         self.order_free = order_free  # row order undefined by the program (shuffles, merges, unique ...)
         self.index_free = index_free  # index labels undefined (reset_index over partitions, merges)
         self.tags = set(tags)
@@ -717,6 +718,18 @@ def _make_generated(name):
         tags = set()
         if set(ops) & _U_SORT:
             tags.add("sort")
+        headtail = bool(set(ops) & {"head_all", "head_k2", "tail"}) or cons in ("head3", "head4_all", "tail2")
+        selects = bool(set(ops) & {"parts"}) or cons == "part1"
+        layout = bool(set(ops) & (_U_SORT | {"repart2", "repart5", "merge_df2", "concat_df3"}))
+        labels_undefined = bool(set(ops) & _U_INDEX_FREE)
+        aligning = {"shift", "cumsum", "assign_z", "assign_over", "abs", "merge_df2", "concat_df3", "mp"}
+        undefined = (
+            (bool(set(ops) & _U_ORDER_FREE) and headtail)  # first rows of an unordered frame
+            or (selects and layout and len(ops) > 1)  # one partition of a plan-dependent layout
+            or (cons == "idx" and labels_undefined)  # the result IS the undefined labels
+            or (len(ops) > 1 and ops[0] in _U_INDEX_FREE and bool(set(ops[1:]) & aligning))  # alignment on duplicated labels
+            or (len(ops) > 1 and "merge_df2" in ops and bool(set(ops) & _U_SORT) and headtail)  # ties in the sort key
+        )
         return Prog(
             name,
             fn,
@@ -727,6 +740,7 @@ def _make_generated(name):
             or (cons == "idx" and bool(set(ops) & _U_INDEX_FREE))  # the result IS the undefined labels
             or (cons in ("head4_all", "tail2", "head3") and bool(set(ops) & _U_ORDER_FREE)),  # head of an unordered frame
             tags=tags | {"generated"},
+            undefined=undefined,
         )
     if parts[0] == "pred":
         tree = _parse_formula(parts[1])
